@@ -304,8 +304,9 @@ func constructMatchStyleRegex(s *Segment) (*regexp.Regexp, []string, []int, erro
 	buf := bytes.NewBufferString("^")
 	for _, e := range s.Elements {
 		if e.Ident != nil {
-			// Dots (".") may appear as literals, we need to escape them in a regex.
-			buf.WriteString(strings.ReplaceAll(*e.Ident, ".", `\.`))
+			// Characters that have special meanings in a regex (e.g. ".", "+", "(") may
+			// appear as literals, we need to escape them.
+			buf.WriteString(regexp.QuoteMeta(*e.Ident))
 			continue
 		} else if e.BindIdent != nil {
 			binds = append(binds, *e.BindIdent)
